@@ -16,7 +16,7 @@ SIGMA_STR = [
     '"', "\\", "\x00", "\x7f", "\ufeff", "\uffff", "\U0001f600",
 ]
 BOUNDS = {
-    "quick": "documents/values/types/coordinates with <=2 grammar deviations x 4 parser-flag settings (mixed executable + type-system documents: <=1); block and quoted strings: all strings <=3 over 19 hard characters (and <=6 over 5 block-layout characters) x 4 contexts x {parsed, programmatic}; >80-column wrapping family",
+    "quick": "documents/values/types/coordinates with <=2 grammar deviations x 4 parser-flag settings (mixed executable + type-system documents: <=1); block and quoted strings: all strings <=3 over 19 hard characters (and <=6 over 5 block-layout characters) x 4 contexts x {parsed, programmatic}; >80-column wrapping family; strings of 60..1000 characters (9 patterns) in both literal forms, printed in both orders within one process",
     "thorough": "<=3 grammar deviations; strings <=4 over 19 hard characters (<=7 over 6 layout characters)",
 }
 RULE = (
